@@ -642,7 +642,11 @@ def run(ctx):
 
     # invalid JSON under a JSON content type -> 400, endpoint not run
     bad_bodies = [b"{bad", b"{", b"[1,", b"nul", b"\xff\xfe\xfd", b"'a'",
-                  b"{\"a\":1}x", b" ", b"\xe9", b"{\"a\":}", b"[1 2]"]
+                  b"{\"a\":1}x", b" ", b"\xe9", b"{\"a\":}", b"[1 2]",
+                  # well-formed JSON syntax around bytes that are not valid
+                  # in the declared / default charset
+                  b"{\"name\": \"\xff\xfe\"}", b"[\"\xc3\"]",
+                  b"\"\xed\xa0\x80\"", b"{\"\x80\": 1}"]
     for body, jtype, cfg in itertools.product(
             bad_bodies, JSON_TYPES if not quick else JSON_TYPES[:2],
             [{}, {"auto_data": False}, {"data_size": 0, "cached_size": 0},
